@@ -235,6 +235,15 @@ ROLLBACK_JOBS += [
     S("h_driver", drv(3, 2, n=3, cp=0, text=1, user=1), ["rollback.serialises_like"], tiers=T),
     S("h_driver", drv(3, 2, n=3, cp=0, text=0), ["rollback.serialises_like"], tiers=T),
 ]
+# rollback, then two iterations of another integrand (what was discarded leaves no trace in later adaptation)
+OTHER_JOBS = [
+    S("h_driver", drv(3, 1, n=2, cp=1, other=1, fk=1, fc=12), ["rollback.continuing_with_another_integrand"], split=4),
+    S("h_driver", drv(3, 2, n=2, cp=1, other=1, fk=1, fc=12), ["rollback.continuing_with_another_integrand"], split=4),
+    S("h_driver", drv(3, 0, n=2, cp=1, other=1, fk=1, fc=12), ["rollback.continuing_with_another_integrand"]),
+    S("h_driver", drv(3, 1, n=2, cp=1, other=1, text=1, user=1, fk=1, fc=12), ["rollback.continuing_with_another_integrand"], tiers=T, split=8),
+    S("h_driver", drv(3, 2, n=2, cp=1, other=1, text=1, user=1, fk=1, fc=12), ["rollback.continuing_with_another_integrand"], tiers=T, split=8),
+]
+ROLLBACK_JOBS += OTHER_JOBS
 PLAN["C15"] = dict(functions=DRIVER_FUNCS + ["hep::chkpt<R>::rollback", "hep::chkpt_with_rng<E,C>::rollback", "hep::vegas_chkpt<T>::rollback",
                                              "hep::multi_channel_chkpt<T>::rollback"],
                    bounds={"quick": "histories run(2); [text round trip]; rollback(k) for every k in 0..3; resume; all three integrators, default and "
@@ -246,6 +255,11 @@ ORDER_JOBS = [
     S("h_driver", drv(4, 1, n=2, cp=1), ["order.callback_once"]),
     S("h_driver", drv(4, 2, n=2, cp=1), ["order.callback_once"]),
     S("h_driver", drv(4, 1, n=3, cp=1, user=1), ["order.callback_once"], tiers=T),
+    # iteration lists with entries of zero calls
+    S("h_driver", drv(4, 0, n=3, cp=4), ["order.callback_once"]),
+    S("h_driver", drv(4, 1, n=3, cp=4), ["order.callback_once"]),
+    S("h_driver", drv(4, 2, n=3, cp=4), ["order.callback_once"]),
+    S("h_driver", drv(4, 1, n=3, cp=5), ["order.callback_once"]),
     S("h_driver", drv(4, 2, n=3, cp=0, user=1), ["order.callback_once"], tiers=T),
 ]
 STOP_JOBS = [
@@ -289,6 +303,10 @@ MODES_JOBS = [
     S("h_driver", drv(6, 0, n=1, cp=3, fk=5, t0=0), ["modes.returned_checkpoint_identical"]),
     S("h_driver", drv(6, 2, n=1, cp=0, fk=2, C=2, user=1), ["modes.returned_checkpoint_identical"], split=4),
     S("h_driver", drv(6, 2, n=1, cp=0, fk=2, C=3, user=1), ["modes.returned_checkpoint_identical"], tiers=T, split=12, timeout_ms=600000),
+    # iterations without calls
+    S("h_driver", drv(6, 0, n=3, cp=4, fk=2), ["modes.returned_checkpoint_identical"]),
+    S("h_driver", drv(6, 1, n=2, cp=5, fk=2), ["modes.returned_checkpoint_identical"]),
+    S("h_driver", drv(6, 2, n=2, cp=4, fk=2), ["modes.returned_checkpoint_identical"]),
     S("h_driver", drv(6, 1, n=2, cp=3, fk=2), ["modes.returned_checkpoint_identical"], tiers=T, split=12),
     S("h_driver", drv(6, 2, n=1, cp=3, fk=2, C=3, user=1), ["modes.returned_checkpoint_identical"], tiers=T, split=12),
     S("h_driver", drv(6, 1, n=2, cp=0, fk=5), ["modes.returned_checkpoint_identical"], tiers=T, split=8),
@@ -496,6 +514,11 @@ for _fl in ("24", "53", "64"):
     for _e in range(12):
         CANON_JOBS.append(S("h_canonical@" + _fl, dict(e=_e), ["canonical.raw_draws_per_number", "stub_engine_advance"]))
 PLAN["C10"]["jobs"] = PLAN["C10"]["jobs"] + CANON_JOBS
+# a weight vector without an enabled channel (accepted unless rejected by an exception): consumption unchanged
+PLAN["C10"]["jobs"] = PLAN["C10"]["jobs"] + [
+    S("h_iteration", it(2, N=2, d=1, C=2, fk=2, jk=1, allzero=1), ["multi_channel.all_zero_weights"]),
+    S("h_iteration", it(2, N=1, d=2, C=3, fk=5, jk=1, allzero=1), ["multi_channel.all_zero_weights"]),
+]
 PLAN["C10"]["functions"] = PLAN["C10"]["functions"] + ["std::generate_canonical<T, digits, Engine> (libstdc++ 12 generic template, run with T = sym::real)",
                                                        "hep::random_number_usage<T, Engine>"]
 PLAN["C10"]["outside"] = ("engines of other standard libraries; the engines' own state transition (only min()/max() matter for the draw count); "
@@ -627,3 +650,19 @@ D2_JOBS = [S("h_driver", drv(0, 1, n=1, cp=0, d=2, user=1), ["final_checkpoint.r
            S("h_driver", drv(0, 1, n=2, cp=0, d=2, B=2), ["final_checkpoint.read_back"], split=4)]
 for _p in ("C03", "C05"):
     PLAN[_p]["jobs"] = PLAN[_p]["jobs"] + D2_JOBS
+
+PLAN["C07"]["jobs"] = PLAN["C07"]["jobs"] + [j for j in OTHER_JOBS if j["cfg"]["alg"] == 1]
+PLAN["C08"]["jobs"] = PLAN["C08"]["jobs"] + [j for j in OTHER_JOBS if j["cfg"]["alg"] == 2]
+
+# the checkpoint object driven directly: add(zero data); pdf()/channel_weights(); rollback(0); add(symbolic data); pdf()/channel_weights()
+OBJECT_V = [S("h_driver", drv(11, 1, B=3, d=1), ["object.next_grid_is_the_refinement"]),
+            S("h_driver", drv(11, 1, B=2, d=2), ["object.next_grid_is_the_refinement"]),
+            S("h_driver", drv(11, 1, B=3, d=1, user=1), ["object.next_grid_is_the_refinement"]),
+            S("h_driver", drv(11, 1, B=4, d=1), ["object.next_grid_is_the_refinement"], tiers=T, split=8)]
+OBJECT_M = [S("h_driver", drv(11, 2, C=3), ["object.next_weights_are_the_refinement"]),
+            S("h_driver", drv(11, 2, C=2, user=1), ["object.next_weights_are_the_refinement"]),
+            S("h_driver", drv(11, 2, C=3, user=1), ["object.next_weights_are_the_refinement"], tiers=T, split=8)]
+PLAN["C07"]["jobs"] = PLAN["C07"]["jobs"] + OBJECT_V
+PLAN["C08"]["jobs"] = PLAN["C08"]["jobs"] + OBJECT_M
+PLAN["C15"]["jobs"] = PLAN["C15"]["jobs"] + OBJECT_V + OBJECT_M
+PLAN["C19"]["jobs"] = PLAN["C19"]["jobs"] + OBJECT_V + OBJECT_M
